@@ -697,7 +697,8 @@ let parse_theader (line : string) : theader =
     | "take" -> if free then TsTakeFine n else TsTake (fixed, n)
     | "merge" -> if free then TsMergeFine (fixed, n) else TsMerge n
     | "combine" -> if free then TsCombineFine (fixed, n) else TsCombine (fixed, n)
-    | "takemerge" -> TsTakeMerge (fixed, n, nat_of_int (geti kv "th" 2))
+    | "takemerge" -> if free then TsTakeMergeFine (n, nat_of_int (geti kv "th" 2))
+                     else TsTakeMerge (fixed, n, nat_of_int (geti kv "th" 2))
     | "takecombine" -> TsTakeCombine (fixed, n, nat_of_int (geti kv "th" 2))
     | s -> failwith ("unknown sys " ^ s) in
   let nth = geti kv "th" 2 in
